@@ -46,7 +46,7 @@ def sibling_arms(ctx) -> None:
             r_ok = util.text(mm.right) == util.text(call.args[1])
             tensor_is_tested = util.text(t.value) == util.text(mm.right)
             ok = same_target and l_ok and r_ok
-            ctx.ob("DEVICE-arms", f"{f.qualname}|{util.text(a.value, 60)}", f.loc(node), ok,
+            ctx.ob("DEVICE-arms", f"{f.qualname}|{util.akey(a.value, f, 60)}", f.loc(node), ok,
                    f"CPU arm {util.text(a.value, 60)} and batched arm take the same operands" if ok else
                    f"CPU arm computes {util.text(a, 80)} but the non-CPU arm computes {util.text(b, 100)} — the two "
                    f"device paths disagree (the non-CPU arm is executed by no test in this sandbox)")
